@@ -347,7 +347,8 @@ class AnsiString:
                     remove_and_add_settings.append(setting)
             if remove_and_add_settings:
                 self._fmts[start].insert_settings(False, remove_and_add_settings)
-                self._fmts[start].insert_settings(True, remove_and_add_settings)
+                # Restart directly above the new settings but below any setting which starts here
+                self._fmts[start].add[len(ansi_settings):len(ansi_settings)] = remove_and_add_settings
 
         # Remove settings
         if end not in self._fmts:
